@@ -1070,8 +1070,27 @@ fn parse_at_rule(text: &str) -> IResult<&str, ()> {
     skip_to_end_of_statement(rest)
 }
 
+/// Error recovery: skip a rule we can't parse (for example one using an
+/// unsupported selector) up to the end of its block, so that the rules after
+/// it are still used.
+fn skip_invalid_rule(text: &str) -> IResult<&str, ()> {
+    let (rest, _) = skip_optional_whitespace(text)?;
+    if rest.is_empty() {
+        return fail(text);
+    }
+    match skip_to_end_of_statement(rest) {
+        Ok((after, ())) if after.len() < rest.len() => Ok((after, ())),
+        // A stray closing bracket or similar: drop a single token.
+        _ => parse_token(rest).map(|(after, _)| (after, ())),
+    }
+}
+
 fn parse_statement(text: &str) -> IResult<&str, Option<RuleSet>> {
-    alt((map(parse_ruleset, Some), map(parse_at_rule, |_| None)))(text)
+    alt((
+        map(parse_ruleset, Some),
+        map(parse_at_rule, |_| None),
+        map(skip_invalid_rule, |_| None),
+    ))(text)
 }
 
 pub(crate) fn parse_stylesheet(text: &str) -> IResult<&str, Vec<RuleSet>> {
